@@ -86,6 +86,14 @@ type State struct {
 	Panic  *PanicInfo
 	// BigWrites: refs written on this path (for frame obligations)
 	Trace []string
+	// Calls: arguments and results of the calls made through contracts on this path, by site ("rlp.DecodeList#1"):
+	// readable in postconditions as called(site), callarg(site, i), callres(site, i)
+	Calls map[string]*callRecord
+}
+
+type callRecord struct {
+	Args []Val
+	Rets []Val
 }
 
 type MapState struct {
@@ -142,6 +150,12 @@ func (st *State) clone() *State {
 		n.Ghost[k] = v
 	}
 	n.Trace = append([]string{}, st.Trace...)
+	if st.Calls != nil {
+		n.Calls = make(map[string]*callRecord, len(st.Calls))
+		for k, v := range st.Calls {
+			n.Calls[k] = v
+		}
+	}
 	return n
 }
 
@@ -473,7 +487,13 @@ func (ex *Exec) symVal(st *State, name string, t types.Type, depth int) Val {
 				ex.Inputs = append(ex.Inputs, alias)
 			}
 		}
-		return SliceV{Elem: u.Elem(), Region: r, Off: ex.idxConst(0), Len: l, Cap: c}
+		sv := SliceV{Elem: u.Elem(), Region: r, Off: ex.idxConst(0), Len: l, Cap: c}
+		if ex.resultMode && depth <= 1 {
+			// a slice returned by a callee used through its contract may be the nil slice (then it is empty)
+			sv.IsNil = ex.declInput(name+"!isnil", BoolSort)
+			ex.Assumes = append(ex.Assumes, Implies(sv.IsNil, Eq(l, ex.idxConst(0))))
+		}
+		return sv
 	case *types.Interface:
 		k := ex.declInput(name+"!kind", IntSort)
 		ex.Assumes = append(ex.Assumes, IGe(k, IntC(0)))
@@ -1738,9 +1758,15 @@ func (ex *Exec) valEq(st *State, a, b Val, t types.Type) *Term {
 	case SliceV:
 		y := b.(SliceV)
 		if y.Region == nil {
+			if x.Region != nil && x.IsNil != nil {
+				return x.IsNil
+			}
 			return BoolC(x.Region == nil)
 		}
 		if x.Region == nil {
+			if y.IsNil != nil {
+				return y.IsNil
+			}
 			return BoolC(y.Region == nil)
 		}
 	case StringV:
